@@ -42,6 +42,10 @@ CHECKS["C15"] = ("runtime model comparison: real annotations.ReadAllAnnotations 
   "Every candidate comment line (8 prefixes x 11 keywords and near-keywords x 4 separators x all argument token sequences of length <=3 quick / <=4 thorough over a 15-token alphabet, about 1.3M / 20M lines, plus fuzzed mutations of valid annotations and 17 attachment sites x 6 keywords) is the doc comment of its own type / func / method / field in a synthetic file handed to the real readers; recognised-or-not and the parsed arguments must equal a character-scanner recogniser written from the statement. Exhaustive inside the token bound, sampled outside.",
   "trusts go/parser; recogniser and FREE classes (trailing-comma lists, digit-initial names, white space other than space/tab, non-ASCII) as in DESIGN.md", "DESIGN.md §3 C15")
 
+CHECKS["C17"] = ("runtime monitor over every diagnostic of all-codes programs: format / table / analyzer / position / help-link checks, re-run with '// @ignore <displayed code>' appended, text-mode exit status vs output",
+  "Every diagnostic produced on generated programs covering all 16 codes (default, scan-tests and exclude-paths configurations) is checked against reference tables written from the book (code table, analyzer <-> category, documentation page per category), its position must lie in a non-excluded file of the package being analysed and its excerpt must show the reported line; a sample of diagnostics per code (all those on the last declaration of a file first) is re-run with '// @ignore CODE' appended and the whole result compared with the reference model; the text-mode exit status must be non-zero exactly when something is printed.",
+  SITE_NOTE, "DESIGN.md §3 C17")
+
 PENDING_REASON = "monitor for this property is still under construction in this round (designed in DESIGN.md §3; not claimed until its check is silent on the unchanged tree)"
 def main():
     checks = []
